@@ -25,7 +25,17 @@ func (fv *FV) addObl(st *State, kind, name, goal, src string, tags []string) {
 	if goal == "true" {
 		return
 	}
-	o := &Obligation{Func: fv.fc.Key, Name: name, Kind: kind, Tags: tags, Hyps: append([]string(nil), st.pc...), Goal: goal, Src: src, Expect: "unsat"}
+	var hyps []string
+	if kind == "frame" {
+		for _, h := range st.pc {
+			if !strings.HasPrefix(h, contentTag) {
+				hyps = append(hyps, h)
+			}
+		}
+	} else {
+		hyps = append(append([]string(nil), st.pc...), st.instances()...)
+	}
+	o := &Obligation{Func: fv.fc.Key, Name: name, Kind: kind, Tags: tags, Hyps: hyps, Goal: goal, Src: src, Expect: "unsat"}
 	fv.obls = append(fv.obls, o)
 }
 
@@ -66,6 +76,11 @@ func (fv *FV) funcVal(f *ssa.Function) Val {
 		id = len(fv.u.fnIDs) + 1000
 		fv.u.fnIDs[k] = id
 		fv.eng.fnByID[id] = f
+	}
+	ax := fmt.Sprintf("(assert (= (fn_of %d) %d))", id, id)
+	if !fv.declS[ax] {
+		fv.declS[ax] = true
+		fv.decls = append(fv.decls, ax)
 	}
 	return Val{T: fmt.Sprint(id), S: "Int", Typ: f.Type()}
 }
@@ -512,6 +527,7 @@ type boxed struct {
 	loc  *Loc
 	ref  string
 	sort string
+	val  string // boxed value at copy-in
 }
 
 func (fv *FV) box(st *State, v Val) Val {
@@ -527,7 +543,7 @@ func (fv *FV) box(st *State, v Val) Val {
 	fv.setHeap(st, sort, fmt.Sprintf("(store %s %s %s)", fv.heap(st, sort), r, cur))
 	fv.eng.noteBox(fv.fc.Key)
 	bx := Val{T: r, S: "Int", Typ: v.Typ}
-	st.fr.boxes = append(st.fr.boxes, boxed{l, r, sort})
+	st.fr.boxes = append(st.fr.boxes, boxed{l, r, sort, fv.define(st, "boxv", sort, cur)})
 	return bx
 }
 
@@ -536,7 +552,8 @@ func (fv *FV) unboxAll(st *State, from int) {
 	bs := st.fr.boxes
 	for i := len(bs) - 1; i >= from; i-- {
 		b := bs[i]
-		fv.store(st, b.loc, fmt.Sprintf("(select %s %s)", fv.heap(st, b.sort), b.ref))
+		now := fmt.Sprintf("(select %s %s)", fv.heap(st, b.sort), b.ref)
+		fv.storeUnless(st, b.loc, now, fmt.Sprintf("(= %s %s)", now, b.val))
 	}
 	st.fr.boxes = bs[:from]
 }
@@ -756,6 +773,7 @@ func (fv *FV) execInstr(st *State, in ssa.Instruction, rest func(*State)) bool {
 	case *ssa.IndexAddr:
 		base := fv.valOf(st, x.X)
 		idx := fv.indexTerm(st, x.Index)
+		st.addIdx(idx)
 		switch bt := x.X.Type().Underlying().(type) {
 		case *types.Slice:
 			es := fv.u.sortOf(bt.Elem(), fv.bv)
@@ -897,7 +915,7 @@ func (fv *FV) execInstr(st *State, in ssa.Instruction, rest func(*State)) bool {
 			binds = append(binds, fv.asTerm(st, fv.valOf(st, b)))
 		}
 		fv.eng.closures[c] = &closureInfo{fn: fn, binds: binds}
-		_ = fvv
+		st.assume(fmt.Sprintf("(= (fn_of %s) %s)", c, fvv.T))
 		st.fr.vals[x] = Val{T: c, S: "Int", Typ: x.Type()}
 	case *ssa.Defer:
 		st.fr.defers = append(st.fr.defers, x)
